@@ -104,7 +104,30 @@ SHAPE_SPECS = [
     ('a2-ap-all-4k', False, True, 'all', 4096),
 ]
 
+
+def _name(asn4: bool, addpath: bool, families: str, msg: int) -> str:
+    return f'a{4 if asn4 else 2}{"-ap" if addpath else ""}-{"all" if families == "all" else "ip"}-{"64k" if msg > 4096 else "4k"}'
+
+
+# the full hypercube (16 shapes); the streams run on the 8 of SHAPE_SPECS, shrinking may visit the others
+ALL_SPECS = [(_name(a, ap, fam, m), a, ap, fam, m) for a in (True, False) for ap in (False, True) for fam in ('ipv4 unicast ipv6 unicast', 'all') for m in (4096, 65535)]
+
 _shapes: dict[str, Shape] = {}
+
+
+def flip(sh: 'Shape', bit: str) -> tuple:
+    """The spec of the shape that differs from `sh` in exactly this bit."""
+    a, ap, fam, m = sh.asn4, sh.addpath, sh.families, sh.msg_size
+    if bit == 'asn4':
+        a = not a
+    elif bit == 'addpath':
+        ap = not ap
+    elif bit == 'families':
+        fam = 'ipv4 unicast ipv6 unicast' if fam == 'all' else 'all'
+    elif bit == 'msg':
+        m = 4096 if m > 4096 else 65535
+    return (_name(a, ap, fam, m), a, ap, fam, m)
+
 
 
 class _FakeProc:
@@ -390,8 +413,18 @@ def _peer_context(sh: Shape) -> Any:
     return PeerContext(proto=sh.proto, neighbor=sh.neighbor, negotiated=sh.neg, refresh_enhanced=True, routes_per_iteration=25, peer_id='c03', stats=sh.peer.stats)
 
 
-def read_message(sh: Shape, ty: int, body: bytes, via: str = 'read_message', measure: bool = False) -> Outcome:
-    """The real Protocol.read_message / read_open / read_keepalive on exactly this message."""
+def read_message(sh: Shape, ty: int, body: bytes, via: str = 'read_message', measure: bool = False, fast: bool = False) -> Outcome:
+    """The real Protocol.read_message / read_open / read_keepalive on exactly this message.
+    `fast`: the neighbor keeps no Adj-RIB-In, has no API consumer and does not log routes."""
+    if fast:
+        from exabgp.configuration.neighbor.api import ParseAPI
+
+        saved = (sh.neighbor.adj_rib_in, sh.proto.log_routes, sh.neighbor.api)
+        sh.neighbor.adj_rib_in, sh.proto.log_routes, sh.neighbor.api = False, False, ParseAPI.flatten({})
+        try:
+            return read_message(sh, ty, body, via, measure)
+        finally:
+            sh.neighbor.adj_rib_in, sh.proto.log_routes, sh.neighbor.api = saved
     reset_caches()
     stage = [via]
     header = MARKER + (19 + len(body)).to_bytes(2, 'big') + bytes([ty & 0xFF])
